@@ -109,7 +109,7 @@ PROPS = {
              "discipline (machine-level memory safety) is outside Lean. Trusted: Lean kernel, harness.",
         assumptions=["chunk >= 1", "position() not wrapped"]),
     "C09": dict(
-        module="Flussab.Props.C09", modules=["Flussab.Props.C09", "Flussab.Props.C09Parsers"],
+        module="Flussab.Props.C09", modules=["Flussab.Props.C09", "Flussab.Props.C09Parsers", "Flussab.Props.C09Btor2"],
         engines=[("aiger", 1500, 50000, "ls"), ("reader", 4000, 150000, ""), ("cnf", 2500, 80000, "ls"), ("btor2", 1500, 50000, "ls")],
         claim="Reader layer proved for all histories and schedules: exactly one non-Interrupted read per refill "
               "(one_read_per_refill), no read when buffered data satisfies the request (no_read_if_satisfied), no "
@@ -120,8 +120,10 @@ PROPS = {
              "`peeked` (cnf_item_no_lookahead / cnf_header_no_lookahead / cnf_document_no_lookahead: when an item is "
              "handed out peeked <= pos + 1 and (peeked <= pos or end of input seen) - nothing beyond the completing "
              "newline was demanded); with reads_only_when_demanded this bounds what a line-by-line source is asked for. "
-             "BTOR2 and AIGER: engine (one line per read, delivered-byte count compared exactly with the model's "
-             "prediction) without a look-ahead theorem yet. Trusted: Lean kernel, harness.",
+             "BTOR2 and AIGER engines: one line per read, delivered-byte count compared exactly with the model's "
+             "prediction); BTOR2 look-ahead is a theorem too (btor2_item_no_lookahead, btor2_document_no_lookahead: "
+             "peeked <= pos for lines ending with their newline, peeked <= pos + 1 with the cursor on the newline for "
+             "lines ending in a comment); AIGER look-ahead theorem pending. Trusted: Lean kernel, harness.",
         assumptions=["chunk >= 1"]),
     "C13": dict(
         module="Flussab.Props.C13", engines=[("scan", 30000, 1500000, "")], release=True,
@@ -219,7 +221,7 @@ PROPS = {
              "model side merely predicts the item count. Trusted: Lean kernel, harness, counting allocator.",
         assumptions=["chunk >= 1", "honest source"]),
     "C06": dict(
-        module="Flussab.Props.C06", modules=["Flussab.Props.C06", "Flussab.Props.C06Cnf", "Flussab.Props.C06Aiger"], engines=[("aiger", 4000, 150000, "rt+layout+mutate+huge+corrupt"), ("cnf", 6000, 200000, "layout+rt+mutate+arbitrary+corrupt+corrupt+log+logmut")],
+        module="Flussab.Props.C06", modules=["Flussab.Props.C06", "Flussab.Props.C06Cnf", "Flussab.Props.C06Aiger", "Flussab.Props.C06Btor2"], engines=[("aiger", 4000, 150000, "rt+layout+mutate+huge+corrupt"), ("cnf", 6000, 200000, "layout+rt+mutate+arbitrary+corrupt+corrupt+log+logmut")],
         bv_decide_theorems=[],
         claim="Numbers: every number token is produced by the decimal scanners, which return the exact decimal value "
               "of the digit run or None (C13) - restated at token level (unsigned_token_exact, signed_token_exact: a "
@@ -233,8 +235,10 @@ PROPS = {
              "aag_gate_within, aig_delta_le_code, aiger_section_exhausted/count, aag/aig_parse_sizes, "
              "aiger_justice_sizes, aiger_symbol_index_within, aig_varint_exact). DIMACS limits are theorems "
              "(Props/C06Cnf.lean: cnf_lits_within, cnf_clean_end_count, gcnf_group_within, cnf_header_within, for "
-             "every accepted byte string, corollaries of cnf_parsed_is_wf). BTOR2 has no declared limits beyond "
-             "number exactness. Trusted: Lean kernel, harness, the independent reference lexer.",
+             "every accepted byte string, corollaries of cnf_parsed_is_wf). BTOR2 (Props/C06Btor2.lean): "
+             "btor2_uint/positive_int/nonnegative_int_exact (a returned number is the decimal value of the digits "
+             "consumed, no leading zero, < 2^64), btor2_accepted_is_canonical (an accepted line is, up to leading "
+             "blanks, exactly the canonical text of the returned Line). Trusted: Lean kernel, harness, the independent reference lexer.",
         assumptions=["64-bit usize/isize"]),
     "C03": dict(
         module="Flussab.Props.C03Cnf", modules=["Flussab.Props.C03Aiger", "Flussab.Props.C03Cnf", "Flussab.Props.C03Btor2"],
@@ -243,19 +247,19 @@ PROPS = {
               "ignore_header settings: parse(write(h, cs)) = (h, cs, clean end) for every value in the explicit "
               "decidable domain WF), cnf_parsed_is_wf + cnf_parse_write_parse (whatever is accepted is in WF, hence "
               "parse o write o parse = parse); btor2_roundtrip (every line kind, exact cursor), "
-              "btor2_document_roundtrip, btor2_const_domain, keyword tables regenerated from the source. Tie: values "
+              "btor2_document_roundtrip, btor2_parsed_is_wf + btor2_parse_write_parse (converse), btor2_const_domain, "
+              "keyword tables regenerated from the source. Tie: values "
               "built from the repo's own types and writers, parsed back and compared (x= expected value), and "
               "parse(write(parse(t))) = parse(t) on every accepted text.",
         note="AIGER: aig_varint_roundtrip (all n < 2^64, lengths 1-10), aig_varint_shape, aiger_header_fields are "
              "proved; the whole-file AIGER round trips are stated (aag_roundtrip_full / aig_roundtrip_full, explicit "
              "WFaig / WFord domains, instantiated by kernel evaluation on concrete circuits) but not yet proved in "
-             "general - carried by the aiger engine's rt family. BTOR2 converse (parsed_is_wf) is left as "
-             "btor2_parsed_is_wf_full. Texts shorter than 2^64-1 bytes, "
+             "general - carried by the aiger engine's rt family. Texts shorter than 2^64-1 bytes, "
              "non-failing source. Trusted: Lean kernel, harness, tools/gen_tables.py.",
         trusted=["tools/gen_tables.py (keyword / name tables translator)"],
         assumptions=["document shorter than 2^64 - 1 bytes"]),
     "C04": dict(
-        module="Flussab.Props.C04", modules=["Flussab.Props.C04", "Flussab.Props.C04Btor2"],
+        module="Flussab.Props.C04", modules=["Flussab.Props.C04", "Flussab.Props.C04Prefix", "Flussab.Props.C04Btor2"],
         engines=[("aiger", 2000, 60000, "fault"), ("aiger", 2, 300, "sweep"), ("cnf", 3000, 100000, "fault+logfault"), ("cnf", 25, 1500, "sweep"), ("btor2", 2000, 60000, "fault"), ("btor2", 15, 600, "sweep")],
         claim="Theorems for every byte string and every fault offset (the view delivers b then fails): "
               "cnf_fault_never_clean_end / log_fault_never_ok / btor2_fault_final (a failing source is never reported "
@@ -265,8 +269,12 @@ PROPS = {
               "parked' carried through every parser function. Tie + item-prefix clause: engines with a fault at "
               "random and at EVERY offset of generated documents, comparing the final error kind and the items with "
               "the fault-free run of the real parser.",
-        note="The clause 'items before the error equal the fault-free run's items' is checked by the engines (fault "
-             "sweeps), not yet a theorem (needs a prefix-monotonicity simulation). AIGER: aiger_fault_io / "
+        note="The clause 'items before the error equal the fault-free run's items' is a theorem for BTOR2 "
+             "(btor2_fault_prefix / btor2_fault_outcome: the lines handed out from b-then-failure are a prefix of "
+             "the fault-free run over any extension b ++ more) and for DIMACS (Props/C04Prefix.lean: cnf_fault_prefix - "
+             "items are a prefix and a returned header is the same header; cnf_fault_syntax_same / "
+             "log_fault_syntax_same - a syntax error of the failing run is the very syntax error, same location and "
+             "items, of the fault-free run; by a prefix-simulation of every parser function). AIGER: aiger_fault_io / "
              "aiger_eof_not_on_fault (in Props/C05Aiger.lean, namespace Flussab.C04) cover the text entry points. "
              "Trusted: Lean kernel, harness.",
         assumptions=["input shorter than 2^63 bytes"]),
